@@ -18,11 +18,14 @@ def fieldset(req, only=("state", "claim", "epic", "title", "body", "result_path"
     return ",".join(k for k in fields_of(req) if k in only) or "-"
 
 
-def run_history(ctx, r, n_cmds, weights, oracle, legacy=False, prelude=None, gen_fn=None):
-    """returns the trace; stops at the first tie break or violation"""
+def run_history(ctx, r, n_cmds, weights, oracle, legacy=None, prelude=None, gen_fn=None):
+    """returns the trace; stops at the first tie break or violation.  legacy=None: one history in seven runs on a store whose log still has the
+    old name `events.jsonl` (every command must read and write that same file)"""
+    if legacy is None:
+        legacy = r.p(14)
     st = cmdrun.Store(ctx.ergo, ctx.go, legacy=legacy)
     v = gen.View()
-    trace = []
+    trace = [{"store": "legacy log name events.jsonl"}] if legacy else []
     try:
         pre = None
         for i in range(n_cmds):
@@ -59,8 +62,12 @@ def run_history(ctx, r, n_cmds, weights, oracle, legacy=False, prelude=None, gen
 
 def replay_trace(ctx, trace, legacy=False):
     """re-run a recorded trace against the current tree; returns the store (caller closes)"""
+    legacy = legacy or any("legacy" in str(step.get("store", "")) for step in trace)
     st = cmdrun.Store(ctx.ergo, ctx.go, legacy=legacy)
     for step in trace:
-        r = st.exec(step["argv"], None if step.get("stdin") is None else step["stdin"].encode())
+        if "argv" not in step:
+            print("·", {k: v for k, v in step.items()})
+            continue
+        r = st.exec(step["argv"], None if step.get("stdin") is None else step["stdin"].encode(), env=step.get("env"))
         print(" ".join(step["argv"]), "⇒ exit", r["exit"], r["stderr"].strip()[:160])
     return st
